@@ -36,6 +36,10 @@ func expandC10(t *testing.T, seed uint64, tier string) []*core.Plan {
 	p.SetKnob("defer", r.Pick(0, 1))
 	if r.Chance(1, 4) {
 		p.SetKnob("cberr", r.Range(1, 5))
+	} else if r.Chance(1, 8) {
+		// the application installed no callback at all (it is optional): every
+		// handshake must still be answered and finished
+		p.SetKnob("nocb", 1)
 	}
 	n := r.Range(1, 12)
 	tag := 0
@@ -122,6 +126,7 @@ type c10Run struct {
 	cbN    int
 	cberr  int
 	early  bool
+	nocb   bool
 	seen   map[*Conn]int
 	closer chan struct{}
 	// held callbacks
@@ -167,6 +172,9 @@ func (r *c10Run) connect() {
 		rec.seq = w.ev(&Ev{K: EvCallback, C: dial, S: fmt.Sprintf("message #%d q%d -> %v", rec.tag, rec.qos, rec.ret)}).Seq
 		r.cbs = append(r.cbs, rec)
 		return rec.ret
+	}
+	if r.nocb {
+		c.Callback = nil
 	}
 	r.cur = c
 	cfg := client.NewConfigWithClientID("sim://broker", "c10")
@@ -301,7 +309,7 @@ func runC10(t *testing.T, p *core.Plan) *core.Result {
 	ptxt := core.Bubble(t, p.Seed, p.Yield, func() {
 		w = NewWorld(p.Seed, res)
 		w.Chunk = p.Knob("chunk", 0)
-		r := &c10Run{w: w, res: res, seen: map[*Conn]int{}, cberr: p.Knob("cberr", 0), early: p.Knob("early", 0) == 1}
+		r := &c10Run{w: w, res: res, seen: map[*Conn]int{}, cberr: p.Knob("cberr", 0), early: p.Knob("early", 0) == 1, nocb: p.Knob("nocb", 0) == 1}
 		r.sess = &ProbeSession{W: w, Inner: session.NewMemorySession()}
 		prompt := p.Knob("defer", 0) == 0
 		fconn, fsend, fpost := p.Knob("fconn", 0), p.Knob("fsend", 0), p.Knob("fpost", 0) == 1
@@ -672,7 +680,7 @@ func (r *c10Run) judge(p *core.Plan) {
 		}
 		if f.done {
 			done2++
-			if accepted[f.tag] == 0 {
+			if accepted[f.tag] == 0 && !r.nocb {
 				res.Violate("C10", "C10.exactly-once", "never-delivered", fmt.Sprintf("the handshake of QoS 2 message #%d completed (PUBCOMP sent) but the application never accepted it", f.tag))
 			}
 		}
@@ -691,6 +699,9 @@ func (r *c10Run) judge(p *core.Plan) {
 	res.Count("qos2_completed", int64(done2))
 	res.Count("callbacks", int64(len(r.cbs)))
 	res.Count("client_connections", int64(r.w.dials))
+	if r.nocb {
+		res.Count("runs_without_callback", 1)
+	}
 	if p.Knob("fsend", 0) != 0 {
 		res.Count("ack_write_faults", 1)
 	}
